@@ -77,6 +77,10 @@ class WebSocketWriter:
         if self._closing and not (opcode & WSMsgType.CLOSE):
             raise ClientConnectionResetError("Cannot write to closing transport")
 
+        if isinstance(message, memoryview) and message.nbytes != len(message):
+            # Items wider than a byte: the frame length is counted in bytes.
+            message = message.cast("c")
+
         if not (compress or self.compress) or opcode >= WS_CONTROL_FRAME_OPCODE:
             # Non-compressed frames don't need lock or shield
             self._write_websocket_frame(message, opcode, 0)
